@@ -31,6 +31,32 @@ pub async fn grant_permission(
     event_type: &str,
     permission_set: PermissionSet,
 ) -> AuthResult<()> {
+    // Replacing the entry = setting the given bits and clearing the others
+    let clear = PermissionSet::new(!permission_set.read, !permission_set.write);
+    update_permission(
+        cache,
+        permission_cache,
+        auth_storage,
+        user_id,
+        event_type,
+        permission_set,
+        clear,
+    )
+    .await
+}
+
+/// Sets the `set` bits and clears the `clear` bits of a user's permissions for an event
+/// type; the other bit keeps the value it has when the lock is held (GRANT / REVOKE of one
+/// bit must not write back a copy of the other bit that was read before the lock).
+pub async fn update_permission(
+    cache: &Arc<RwLock<UserCache>>,
+    permission_cache: &Arc<RwLock<PermissionCache>>,
+    auth_storage: &Arc<dyn AuthStorage>,
+    user_id: &str,
+    event_type: &str,
+    set: PermissionSet,
+    clear: PermissionSet,
+) -> AuthResult<()> {
     // Hold the write lock across read-modify-write: a concurrent grant / revoke must not be
     // overwritten with a stale copy of the record
     let mut cache_guard = cache.write().await;
@@ -44,6 +70,14 @@ pub async fn grant_permission(
 
     // Update permissions
     let mut updated_permissions = user_key.permissions.clone();
+    let existing = updated_permissions
+        .get(event_type)
+        .cloned()
+        .unwrap_or_else(PermissionSet::none);
+    let permission_set = PermissionSet::new(
+        (existing.read || set.read) && !clear.read,
+        (existing.write || set.write) && !clear.write,
+    );
     updated_permissions.insert(event_type.to_string(), permission_set);
 
     // Create updated user
